@@ -3,6 +3,7 @@ package main
 import (
 	"fmt"
 	"os"
+	"strings"
 	"time"
 
 	"verifharness/hxlib"
@@ -23,8 +24,8 @@ func main(a, b uint8) (uint8, uint8, uint8) {
 	g := []string{"203"}
 	e := []string{"77"}
 	if len(os.Args) > 3 {
-		g = []string{os.Args[2]}
-		e = []string{os.Args[3]}
+		g = strings.Split(os.Args[2], ",")
+		e = strings.Split(os.Args[3], ",")
 	}
 	d := hxlib.NewDuplex(nil)
 	r := hxlib.RunStreamSession(src, g, e, nil, hxlib.NewRng(1), d, 20*time.Second)
